@@ -179,6 +179,19 @@ CHECKS = {
                   'processes, allocation noise) with writer_fault crash points; byte-equality and '
                   'before/after oracles',
         design='5 C20'),
+    'C12': dict(
+        level='exploration',
+        text='Seeded search: generated BLIF (1..3 models, general and special-cased covers, '
+             'constants, .latch with every init code, all 32 supported flip-flop cells, nested '
+             '.subckt, outputs read internally, vector ports; merge_io_vectors both ways; str and '
+             'file readers) and ISCAS .bench netlists with commands, models and gate lines emitted '
+             'in scheduler-chosen orders, imported and simulated against independent readers / '
+             'evaluators (flip-flop semantics decoded from the cell name). Sampling, not proof.',
+        note='Trusted: verifsim/blifref.py (BlifRef, BenchRef). Known finding: ISCAS gates with '
+             'more than two inputs (pinned by the existing tests, see known_findings.json).',
+        technique=TECH + 'seeded command/model reordering schedule of declarative netlist files; '
+                  'cycle-by-cycle replica agreement with an independent evaluator',
+        design='5 C12'),
 }
 
 NOT_APPLICABLE = {
